@@ -187,6 +187,7 @@ def run(ctx):
                                       {"hash": hn, "envelope": [a, b], "request": [r1, r2], "l2_key_present": bool(k2), "scenario": "wire"}, hx(got)[:32], hx(spec.K2[(r1, r2)])[:32])
     ctx.count("real_hmac_cases", n_real)
     through_cache(ctx, g, hashes)
+    across_l0(ctx, g, hashes)
 
     # ---- thorough: the entire lattice against the spec chain (fast KDF), step counts against the model
     if ctx.thorough:
@@ -237,6 +238,63 @@ def through_cache(ctx, g, hashes):
                                 return
             finally:
                 c.time = old
+
+
+
+def across_l0(ctx, g, hashes):
+    """one cache used across several L0 intervals in every order (a current secret, then one from the previous ~427-day interval, …):
+    each request must get seed material of ITS L0 chain — both through KeyCache._get_key + compute_l2_key (independent HMAC chain as
+    the oracle) and through the public protect / unprotect functions with a moving clock"""
+    import dpapi_ng, dpapi_ng._client as c
+    from dpapi_ng._blob import ProtectionDescriptor
+    sid = "S-1-5-21-1-2-3-1103"
+    sd = ProtectionDescriptor.parse(sid).get_target_sd()
+    root = bytes(range(1, 65))
+    hn, h = "sha512", hashes.SHA512()
+    specs = {l0: SpecChain(lambda k, cc: kbkdf_hmac(hn, k, LABEL, cc, 64), root, sd, l0) for l0 in (360, 361, 362)}
+    for order in ((362, 361), (361, 362), (362, 361, 362), (360, 362, 361), (362, 360, 362, 361)):
+        cache = dpapi_ng.KeyCache()
+        cache.load_key(root, root_key_id=RK, kdf_parameters=g.KDFParameters(hn.upper()).pack())
+        with toycrypto.recording() as rlog:
+            for step, l0 in enumerate(order):
+                for (r1, r2) in ((9, 7), (5, 3), (31, 31), (0, 0)):
+                    rlog.reset_budget()
+                    try:
+                        env = cache._get_key(sd, RK, l0, r1, r2)
+                        got = g.compute_l2_key(h, r1, r2, env) if env.l0 == l0 else ("envelope of L0 %d" % env.l0).encode()
+                    except Exception as e:  # noqa
+                        got = ("raised " + type(e).__name__).encode()
+                    ctx.count("across_l0:get_key")
+                    if got != specs[l0].K2[(r1, r2)]:
+                        ctx.violation("one cache used across L0 intervals hands out seed material of the wrong interval",
+                                      {"hash": hn, "l0_order": list(order), "step": step, "request": [l0, r1, r2], "scenario": "across_l0"},
+                                      (got if got[:1] in (b"r", b"e") else hx(got)[:32].encode()).decode(), hx(specs[l0].K2[(r1, r2)])[:32])
+                        return
+    # the public functions: protect at clocks in different L0 intervals (own caches), then unprotect all of them on ONE cache in each order
+    blobs = {}
+    old = c.time
+    try:
+        for l0 in (360, 361, 362):
+            now_ns = (((l0 * 32 + 9) * 32 + 7) * 360000000000 + 5 - 116444736000000000) * 100
+            c.time = type("T", (), {"time_ns": staticmethod(lambda now_ns=now_ns: now_ns)})
+            cache = dpapi_ng.KeyCache()
+            cache.load_key(root, root_key_id=RK, kdf_parameters=g.KDFParameters(hn.upper()).pack())
+            blobs[l0] = dpapi_ng.ncrypt_protect_secret(b"secret of %d" % l0, sid, root_key_identifier=RK, cache=cache)
+        for order in ((362, 361), (361, 362), (362, 360, 362, 361)):
+            cache = dpapi_ng.KeyCache()
+            cache.load_key(root, root_key_id=RK, kdf_parameters=g.KDFParameters(hn.upper()).pack())
+            for step, l0 in enumerate(order):
+                try:
+                    got = dpapi_ng.ncrypt_unprotect_secret(blobs[l0], cache=cache)
+                except Exception as e:  # noqa
+                    got = ("raised " + type(e).__name__ + ": " + str(e)[:80]).encode()
+                ctx.count("across_l0:unprotect")
+                if got != b"secret of %d" % l0:
+                    ctx.violation("one cache used across L0 intervals cannot decrypt a blob its root key covers",
+                                  {"hash": hn, "l0_order": list(order), "step": step, "blob_l0": l0, "scenario": "across_l0"}, got.decode("latin-1")[:120], "the plaintext")
+                    return
+    finally:
+        c.time = old
 
 
 def lattice(ctx, g, hashes, sd, root, l0):
@@ -308,6 +366,12 @@ def replay(ctx, payload):
     if v.get("scenario") == "through_cache":
         c2 = type(ctx)(ctx.prop, "quick", ctx.seed)
         through_cache(c2, g, hashes)
+        for x in c2.violations:
+            print(" ", x["what"], x["input"], x["observed"])
+        return not c2.violations
+    if v.get("scenario") == "across_l0":
+        c2 = type(ctx)(ctx.prop, "quick", ctx.seed)
+        across_l0(c2, g, hashes)
         for x in c2.violations:
             print(" ", x["what"], x["input"], x["observed"])
         return not c2.violations
